@@ -784,11 +784,12 @@ pub fn u_set_ip6() {
     let mut ip = [0u8; 16];
     // ::ffff:a.b.c.d (IPv4-mapped) or an arbitrary first/last byte
     let mapped = sym::bool();
+    let first = sym::u8();
     if mapped {
         ip[10] = 0xff;
         ip[11] = 0xff;
     } else {
-        ip[0] = sym::u8();
+        ip[0] = first;
     }
     ip[12] = sym::u8();
     ip[15] = sym::u8();
